@@ -202,3 +202,78 @@ func embeds(exp string, removable []bool, out string) bool {
 	}
 	return ok[m]
 }
+
+// refMustCut marks the bytes of the expansion that the documented behaviour
+// removes for sure: the blanks and the new line of a line that ends with a
+// new line and holds, besides blanks, exactly one cutting token lying
+// entirely on that line (a comment, a show of a render, a statement other
+// than var, const and show of a value, a non empty {%% %%} block).
+func refMustCut(src string, items []refItem) (must []bool) {
+	lineOf := make([]int, len(src)+1)
+	ln := 0
+	for i := 0; i < len(src); i++ {
+		lineOf[i] = ln
+		if src[i] == '\n' {
+			ln++
+		}
+	}
+	lineOf[len(src)] = ln
+	nTok := make([]int, ln+1)     // tokens touching the line
+	cutting := make([]bool, ln+1) // a single line cutting token lies on it
+	content := make([]bool, ln+1)
+	hasNL := make([]bool, ln+1)
+	for i := 0; i < len(src); i++ {
+		if src[i] == '\n' {
+			hasNL[lineOf[i]] = true
+		}
+	}
+	for _, it := range items {
+		if it.kind == "text" {
+			for i := it.start; i < it.end; i++ {
+				if c := src[i]; c != ' ' && c != '\t' && c != '\r' && c != '\n' {
+					content[lineOf[i]] = true
+				}
+			}
+			continue
+		}
+		l1, l2 := lineOf[it.start], lineOf[it.end-1]
+		for l := l1; l <= l2; l++ {
+			nTok[l]++
+		}
+		if l1 != l2 {
+			continue
+		}
+		body := strings.TrimSpace(strings.Trim(src[it.start:it.end], "{}%"))
+		isCut := it.kind == "comment" && !strings.HasPrefix(src[it.start:], "#!") || it.kind == "stmt" && it.out == "P" && strings.HasPrefix(src[it.start:], "{{")
+		if it.kind == "stmt" && strings.HasPrefix(src[it.start:], "{%") {
+			isCut = body != "" && !strings.HasPrefix(body, "var") && !strings.HasPrefix(body, "const") && !(strings.HasPrefix(body, "show") && it.out != "P")
+		}
+		if isCut {
+			cutting[l1] = true
+		}
+	}
+	for _, it := range items {
+		if it.kind != "text" {
+			for range it.out {
+				must = append(must, false)
+			}
+			continue
+		}
+		for i := it.start; i < it.end; i++ {
+			l := lineOf[i]
+			must = append(must, nTok[l] == 1 && cutting[l] && !content[l] && hasNL[l])
+		}
+	}
+	return must
+}
+
+// withoutMust returns exp minus the bytes that must be cut.
+func withoutMust(exp string, must []bool) string {
+	var b strings.Builder
+	for i := 0; i < len(exp); i++ {
+		if !must[i] {
+			b.WriteByte(exp[i])
+		}
+	}
+	return b.String()
+}
